@@ -589,6 +589,12 @@ def jobs(tier):
     out.append(dict(func="collide_disabled", params={}))
     for prior in (0, 1):
         out.append(dict(func="wait_threads", params=dict(prior=prior)))
+        # the same with one (thorough: two) preemption(s) placed at any source line of canopen code
+        out.append(dict(func="wait_threads", params=dict(prior=prior, preempt=1), weight=60))
+        if tier == "thorough":
+            out.append(dict(func="wait_threads", params=dict(prior=prior, preempt=2), weight=500))
+    if tier == "thorough":
+        out.append(dict(func="two_readers", params=dict(preempt=1), weight=4000))
     for k in (1, 2):
         out.append(dict(func="sequence", params=dict(k=k), weight=10 ** k))
     if tier == "thorough":
